@@ -631,6 +631,6 @@ Definition wf_elem (e : elem) : Prop :=
 
 Definition valid (c : case) : Prop :=
   match c with
-  | CPath p => Forall wf_elem p /\ over_limit p = false
+  | CPath p => Forall wf_elem p
   | CStr _ => True
   end.
